@@ -736,6 +736,126 @@ Proof.
       cbn. apply rd_snoc. lia.
 Qed.
 
+(* ------------------------------------------------------------------ private builders *)
+
+(* arrs' keeps every one of the first n arrays of arrs as it is *)
+Definition keepsA (n : nat) (arrs arrs' : arrays) : Prop :=
+  n <= length arrs' /\ forall a, a < n -> nth a arrs' [] = nth a arrs [].
+
+(* the builder's slice lives in arrays created after the first n, is well formed and holds xs *)
+Definition bstate_ok (n : nat) (arrs0 : arrays) (st : arrays * slice) (xs : list val) : Prop :=
+  keepsA n arrs0 (fst st) /\ n <= s_arr (snd st) /\ s_arr (snd st) < length (fst st) /\
+  slice_ok (fst st) (snd st) /\ rd_slice (fst st) (snd st) = xs.
+
+Lemma bstep_ok : forall n arrs0 st xs b,
+  bstate_ok n arrs0 st xs -> bstate_ok n arrs0 (bstep_run st b) (bstep_content xs b).
+Proof.
+  intros n arrs0 [arrs s] xs b ([Kl Kn] & Hn & Hlt & Hok & Hrd). cbn [fst snd] in *.
+  pose proof Hok as [Hs1 Hs2].
+  assert (Hlen : length xs = s_len s) by (rewrite <- Hrd; apply rd_slice_length; auto).
+  destruct b as [x c|lo hi]; cbn [bstep_run bstep_content].
+  - unfold go_append. destruct (s_len s <? s_cap s) eqn:Hlc.
+    + apply Nat.ltb_lt in Hlc. unfold bstate_ok. cbn [fst snd s_arr s_off s_len s_cap].
+      split; [|split; [|split; [|split]]].
+      * split; [rewrite write_length; auto|]. intros a Ha. rewrite write_nth_other by lia. auto.
+      * auto.
+      * rewrite write_length. auto.
+      * split; cbn; [lia|]. rewrite write_nth_length. auto.
+      * unfold rd_slice. cbn [s_arr s_off s_len]. rewrite rd_write_at; auto; [|lia].
+        unfold rd_slice in Hrd. rewrite Hrd. reflexivity.
+    + apply Nat.ltb_ge in Hlc. unfold bstate_ok. cbn [fst snd s_arr s_off s_len s_cap].
+      set (cc := Nat.max c (S (s_len s))).
+      assert (Hl : length (rd_slice arrs s ++ [x]) = S (s_len s)).
+      { rewrite app_length, (rd_slice_length _ _ Hok). cbn. lia. }
+      assert (Harr : rd_slice arrs s ++ x :: repeat 0%Z (cc - S (s_len s)) =
+                     (rd_slice arrs s ++ [x]) ++ repeat 0%Z (cc - S (s_len s))).
+      { rewrite <- app_assoc. reflexivity. }
+      split; [|split; [|split; [|split]]].
+      * split; [rewrite app_length; cbn; lia|]. intros a Ha. rewrite app_nth1 by lia. auto.
+      * lia.
+      * rewrite app_length. cbn. lia.
+      * split; cbn; [lia|]. rewrite app_nth2 by lia. rewrite Nat.sub_diag. cbn [nth].
+        rewrite Harr, app_length, Hl, repeat_length. lia.
+      * unfold rd_slice at 1. cbn [s_arr s_off s_len]. rewrite Harr. rewrite <- Hl. rewrite rd_fresh.
+        rewrite Hrd. reflexivity.
+  - rewrite Hlen. destruct ((lo <=? hi) && (hi <=? s_len s)) eqn:Hc.
+    + apply andb_prop in Hc. destruct Hc as [H1 H2]. apply Nat.leb_le in H1, H2.
+      unfold bstate_ok. cbn [fst snd s_arr s_off s_len s_cap].
+      split; [split; auto|]. split; auto. split; auto. split.
+      * split; cbn; lia.
+      * unfold rd_slice, rd. cbn [s_arr s_off s_len]. rewrite <- Hrd. unfold rd_slice, rd.
+        symmetry. apply sub_rd. lia.
+    + unfold bstate_ok. cbn [fst snd]. repeat (split; auto).
+Qed.
+
+Lemma builder_run_ok : forall arrs c0 script,
+  bstate_ok (length arrs) arrs (builder_run arrs c0 script) (content_of script).
+Proof.
+  intros arrs c0 script. unfold builder_run, content_of.
+  assert (H0 : bstate_ok (length arrs) arrs (arrs ++ [repeat 0%Z c0], mkS (length arrs) 0 0 c0) []).
+  { unfold bstate_ok. cbn [fst snd s_arr s_off s_len s_cap]. split; [|split; [|split; [|split]]].
+    - split; [rewrite app_length; cbn; lia|]. intros a Ha. apply app_nth1. auto.
+    - lia.
+    - rewrite app_length. cbn. lia.
+    - split; cbn; [lia|]. rewrite app_nth2 by lia. rewrite Nat.sub_diag. cbn. rewrite repeat_length. lia.
+    - reflexivity. }
+  revert H0. generalize (arrs ++ [repeat 0%Z c0], mkS (length arrs) 0 0 c0). generalize (@nil val).
+  induction script as [|b script IH]; intros xs st H; cbn [fold_left]; auto.
+  apply IH. apply bstep_ok. auto.
+Qed.
+
+(* The whole script as one step: it is add_fresh up to unreachable arrays *)
+Lemma build_good : forall h c0 script, inv h ->
+  let h' := step h (OBuild c0 script) in
+  good h h' /\ nobjs h' = S (nobjs h) /\ icontent h' (nobjs h) = content_of script /\
+  keepsA (length (h_arrs h)) (h_arrs h) (h_arrs h') /\
+  (forall i ob, get_obj h i = Some ob ->
+     get_obj h' i = Some ob /\ (s_arr (o_items ob) < length (h_arrs h) \/ s_cap (o_items ob) = 0)) /\
+  (exists nw, get_obj h' (nobjs h) = Some nw /\ length (h_arrs h) <= s_arr (o_items nw) /\ o_present nw = true).
+Proof.
+  intros h c0 script Hinv h'. pose proof Hinv as [Hok Hnc].
+  pose proof (builder_run_ok (h_arrs h) c0 script) as Hb.
+  unfold h'. cbn [step]. destruct (builder_run (h_arrs h) c0 script) as [arrs' s].
+  destruct Hb as ([Kl Kn] & Hn & Hlt & Hsok & Hrd). cbn [fst snd] in *.
+  set (N := length (h_arrs h)) in *.
+  set (hh := mkH arrs' (h_objs h ++ [new_list s])).
+  assert (Hnn : nobjs hh = S (nobjs h)). { unfold nobjs, hh. cbn. rewrite app_length. cbn. lia. }
+  assert (Hold : forall t, slice_ok (h_arrs h) t -> slice_ok arrs' t /\ (s_arr t < N \/ (s_cap t = 0 /\ s_off t = 0 /\ s_len t = 0))).
+  { intros t Ht. pose proof Ht as [T1 T2]. destruct (slice_ok_arr _ _ Ht) as [Hlt'|(C & O & L)].
+    - split; auto. split; auto. fold N in Hlt'. rewrite Kn; auto.
+    - split; auto. split; lia. }
+  assert (Hfr : forall o, o < nobjs h -> icontent hh o = icontent h o).
+  { apply frame_gen; [lia|]. intros m ob Hg. left. split.
+    - unfold hh. cbn. rewrite app_nth1; [|apply (get_obj_lt _ _ _ Hg)]. f_equal. apply get_obj_nth. auto.
+    - intros a off k Hi. destruct (iter_slice_inv _ _ _ _ _ _ Hinv Hg Hi) as (_ & -> & -> & -> & Hs).
+      unfold hh. cbn [h_arrs]. destruct (Hold _ Hs) as [_ [Hl'|(C & O & L)]].
+      + unfold rd. rewrite Kn; auto.
+      + unfold rd. rewrite L. reflexivity. }
+  split; [split; [|split]|split; [|split; [|split; [|split]]]]; auto; try lia.
+  - split.
+    + intros i ob Hg. unfold get_obj, hh in Hg. cbn in Hg.
+      destruct (nth_error_snoc_inv _ _ _ _ _ Hg) as [[Hl Hg']|[-> ->]].
+      * destruct (Hok _ _ Hg') as [Hs Hp]. split; auto. apply (Hold _ Hs).
+      * split; [exact Hsok|reflexivity].
+    + intros i j obi obj Hij Hgi Hgj. unfold get_obj, hh in Hgi, Hgj. cbn in Hgi, Hgj.
+      destruct (nth_error_snoc_inv _ _ _ _ _ Hgi) as [[Hli Hgi']|[-> ->]];
+      destruct (nth_error_snoc_inv _ _ _ _ _ Hgj) as [[Hlj Hgj']|[-> ->]].
+      * apply (Hnc i j obi obj Hij Hgi' Hgj').
+      * destruct (Hok _ _ Hgi') as [Hs _]. destruct (Hold _ Hs) as [_ [Hl'|(C & O & L)]];
+          unfold no_clash; cbn; lia.
+      * destruct (Hok _ _ Hgj') as [Hs _]. destruct (Hold _ Hs) as [_ [Hl'|(C & O & L)]];
+          unfold no_clash; cbn; lia.
+      * lia.
+  - rewrite icontent_eq by lia. unfold hh. cbn [h_arrs h_objs].
+    rewrite app_nth2 by (unfold nobjs; lia). unfold nobjs at 2. rewrite Nat.sub_diag. cbn. exact Hrd.
+  - split; auto.
+  - intros i ob Hg. split.
+    + unfold get_obj, hh. cbn. apply nth_error_snoc_old. exact Hg.
+    + destruct (Hok _ _ Hg) as [Hs _]. destruct (Hold _ Hs) as [_ [Hl'|(C & O & L)]]; auto.
+  - exists (new_list s). split; [|split; [exact Hn|reflexivity]].
+    unfold get_obj, hh. cbn. rewrite nth_error_app2 by (unfold nobjs; lia). unfold nobjs. rewrite Nat.sub_diag. reflexivity.
+Qed.
+
 Theorem step_refines_lemma : forall h o, inv h -> good h (step h o) /\ abs (step h o) = pstep (abs h) o.
 Proof.
   intros h o Hinv. destruct o; cbn [step pstep]; rewrite ?ltb_nobjs.
@@ -792,6 +912,8 @@ Proof.
   - (* OStage *)
     apply (lazy_step h (PStage st a b) ((a <? nobjs h) && (b <? nobjs h)) Hinv).
     intros H. apply andb_prop in H. destruct H as [H1 H2]. apply Nat.ltb_lt in H1, H2. cbn. auto.
+  - (* OBuild *)
+    destruct (build_good h c0 script Hinv) as (Hg & Hn & Hc & _). split; auto. apply abs_extend1; auto.
   - (* OEvalFail *)
     destruct (a <? nobjs h); [|split; [apply good_refl; auto|reflexivity]].
     destruct (garbage_array_good h (firstn k (icontent h a)) Hinv) as [Hg Hn]. split; auto.
@@ -921,4 +1043,33 @@ Proof.
   destruct (eval_obj_good h' a c Hi) as ((Hi2 & _ & Hc2) & Hn2 & Hp2).
   destruct (get_obj_some (eval_obj h' a c) a) as [ob Hob]; [lia|].
   rewrite <- (present_views_agree _ _ _ Hi2 Hob (Hp2 _ Hob)). rewrite Hc2 by lia. apply Hall.
+Qed.
+
+(* ------------------------------------------------------------------ a private builder is add_fresh *)
+
+(* For every script and every growth decision of append: running the script is add_fresh of its content, up to
+   arrays nobody can reach.  (1) the invariant is kept; (2) exactly one handle is added and every existing
+   handle's content is unchanged; (3) the new handle shows exactly content_of script; (4) the heap abstraction is
+   that of add_fresh (for any capacity); (5) every array that existed before is untouched, every existing object
+   is the same object and refers to an old array (or to none), the new object's slice lives in a new array: no
+   existing object can reach the builder's arrays. *)
+Lemma private_builder_is_add_fresh_lemma : forall h c0 script c, inv h ->
+  let h' := step h (OBuild c0 script) in
+  let hf := add_fresh h (content_of script) c in
+  inv h' /\
+  (nobjs h' = nobjs hf /\ forall x, x < nobjs h -> icontent h' x = icontent h x) /\
+  icontent h' (nobjs h) = content_of script /\
+  abs h' = abs hf /\
+  ((forall a, a < length (h_arrs h) -> nth a (h_arrs h') [] = nth a (h_arrs h) []) /\
+   (forall i ob, get_obj h i = Some ob ->
+      get_obj h' i = Some ob /\ (s_arr (o_items ob) < length (h_arrs h) \/ s_cap (o_items ob) = 0)) /\
+   (exists nw, get_obj h' (nobjs h) = Some nw /\ length (h_arrs h) <= s_arr (o_items nw))).
+Proof.
+  intros h c0 script c Hinv h' hf.
+  destruct (build_good h c0 script Hinv) as (Hg & Hn & Hc & [_ Hk] & Hobj & (nw & Hnw & Hnw2 & _)). fold h' in Hg, Hn, Hc, Hk, Hobj, Hnw.
+  destruct (add_fresh_good h (content_of script) c Hinv) as (Hgf & Hnf & Hcf). fold hf in Hgf, Hnf, Hcf.
+  pose proof Hg as (Hi & _ & Hold).
+  split; auto. split; [split; [congruence|auto]|]. split; auto. split.
+  - rewrite (abs_extend1 h h' (content_of script)); auto. rewrite (abs_extend1 h hf (content_of script)); auto.
+  - split; auto. split; auto. exists nw. auto.
 Qed.
